@@ -160,6 +160,8 @@ def run_cfg(ctx, p, cfg):
                           detail="signature %s" % sig[-120:])
 
     rule_retention(ctx, p, cfg, "V2")
+    from rules import c15
+    c15.rule_one_snapshot(ctx, p, cfg, "V8")   # "logged through without panicking": the positions a node holds index the appender table of the same snapshot
 
     with ctx.rule("V3", "strictness and error payloads", cfg) as r:
         b = p.fn(BUILD)
